@@ -41,6 +41,52 @@ def handle (kind : String) (args : List String) (impl : String) : String :=
       let m := showNats (List.replicate n (g * e / n))
       verdict impl m m
     | _, _, _ => "bad-op"
+  | "c06.tcp", pol :: ns :: acts =>
+    match ns.toNat? with
+    | none => "bad-op"
+    | some n =>
+      -- state: members (indexes, ascending = address order), down flags, held connections per backend, rr counter
+      let rec go (members : List Nat) (down : List Nat) (held : List Nat) (ctr : Nat) : List String → Option (List String)
+        | [] => some []
+        | a :: rest =>
+          let c := a.toList.headD ' '
+          let arg := (a.drop 1).toString
+          if c == 'c' then
+            if members.isEmpty then (go members down held ctr rest).map (fun r => "x" :: r) else
+            let pick : Option (Nat × Nat) :=
+              if pol == "L" then
+                match arg.splitOn "." with
+                | [r1, r2] => match r1.toNat?, r2.toNat? with
+                  | some r1, some r2 =>
+                    let conns := members.map fun m => held.count m
+                    some (members.getD (leastConnPick r1 r2 conns) 0, ctr)
+                  | _, _ => none
+                | _ => none
+              else some (members.getD (rrPick ctr members.length) 0, ctr + 1)
+            match pick with
+            | none => none
+            | some (b, ctr') =>
+              if down.contains b then (go members down held ctr' rest).map (fun r => "x" :: r)
+              else (go members down (b :: held) ctr' rest).map (fun r => toString b :: r)
+          else if a == "k" then go members down [] ctr rest
+          else match arg.toNat? with
+            | none => none
+            | some i =>
+              if i ≥ n then none else
+              if c == 'd' then go members (if down.contains i then down else i :: down) held ctr rest
+              else if c == 'u' then go members (down.filter (· != i)) held ctr rest
+              else if c == 'a' then
+                let ms := if members.contains i then members else (members.takeWhile (· < i)) ++ i :: members.dropWhile (· < i)
+                go ms down held ctr rest
+              else if c == 'r' then
+                -- established connections to a removed host are closed (only if it was a member)
+                let closed := if members.contains i then held.count i else 0
+                let held' := if members.contains i then held.filter (· != i) else held
+                (go (members.filter (· != i)) down held' ctr rest).map (fun r => s!"r{closed}" :: r)
+              else none
+      match go (List.range n) [] [] 0 acts with
+      | some outs => let m := if outs.isEmpty then "-" else ",".intercalate outs; verdict impl m m
+      | none => "bad-op"
   | _, _ => "bad-op"
 
 end SamVerif.Drive.C06
